@@ -410,8 +410,9 @@ func (p *panicOnce) Write(b []byte) (int, error) {
 func TestWriterFault(t *testing.T) {
 	r := mon.Start("C19", "writer_fault")
 	var n int64
-	for opt := 0; opt < nOpts; opt++ {
-		for at := 1; at <= 3; at++ {
+	stuck := false
+	for opt := 0; opt < nOpts && !stuck; opt++ {
+		for at := 1; at <= 3 && !stuck; at++ {
 			o := options(optKind(opt))
 			w := &panicOnce{at: at}
 			root := node{slogutil.NewJSONHybridHandler(w, o), nil}
@@ -441,6 +442,7 @@ func TestWriterFault(t *testing.T) {
 				case res = <-done:
 				case <-time.After(30 * time.Second):
 					res = "Handle did not return within 30 s: the handler is stuck after the writer's panic"
+					stuck = true // the goroutine is lost: one witness is enough
 				}
 				n++
 				if res == "injected" {
